@@ -39,7 +39,7 @@ def lookup_ranks(f):
         d = strip_refs(f.expr(t['d'], s))
         if d[0] == 'discr':
             x = strip_refs(d[1])
-            if x[0] == 'call' and short(x[1]) in ('get', 'get_mut', 'find'):
+            if x[0] == 'call' and short(x[1]) in ('get', 'get_mut', 'find', 'position'):
                 sw.append(s)
     ranks = {}
     for s in sw:
@@ -47,8 +47,17 @@ def lookup_ranks(f):
     return ranks
 
 
+def loop_depth(f, bi):
+    return sum(1 for h, body in f.loops if bi in body)
+
+
 def token(f):
     ranks = lookup_ranks(f)
+    # the per-entry action lookup sits in the inner loop over (action, weight) pairs; the infoset lookups in
+    # the outer loop over infosets — told apart by loop nesting, not by how the Option is consumed
+    depth0 = min([loop_depth(f, s) for s in ranks] or [0])
+    action_sw = {s for s in ranks if loop_depth(f, s) > depth0}
+    ranks = {s: sum(1 for o in ranks if o != s and o not in action_sw and f.dominates(o, s)) for s in ranks if s not in action_sw}
 
     def want(c):
         a = c.get('a')
@@ -56,6 +65,8 @@ def token(f):
             vs = c['variants']
             s = strip_refs(a)
             if vs in (['Some'], ['None']):
+                if c['switch'] in action_sw:
+                    return ('A:lookup', 'hit' if vs == ['Some'] else 'miss')
                 if c['switch'] in ranks:
                     return ('L:table#%d' % ranks[c['switch']], vs[0])
                 return None     # loop structure / other options
@@ -64,8 +75,14 @@ def token(f):
             return None
         if c['kind'] in ('Ge', 'Gt') and c.get('b') is not None and is_const(c['b'], 0):
             return ('W:%s0' % ('>=' if c['kind'] == 'Ge' else '>'), c['truth'])
+        if c['kind'] in ('Lt', 'Le') and c.get('b') is not None and is_const(c['b'], 0):
+            # `w < 0.0` is the complement of `w >= 0.0` on every finite value; a NaN weight fails the
+            # accompanying is_finite test either way (the absolute rule requires both tokens)
+            return ('W:%s0' % ('>=' if c['kind'] == 'Lt' else '>'), not c['truth'])
         if c['kind'] == 'IsFinite':
             return ('W:finite', c['truth'])
+        if c['kind'] in ('IsNan', 'IsInfinite'):
+            return None
         if c['kind'] in ('Ne', 'Eq') and c.get('b') is not None and not is_const(c['b'], 0):
             v = c['truth'] if c['kind'] == 'Ne' else (not c['truth'])
             return ('A:differs', v)
@@ -75,6 +92,9 @@ def token(f):
             return ('T:zero', not c['truth'])
         if c['kind'] == 'Is:all':
             return ('S:all-seen', c['truth'])
+        if c['kind'] == 'Is:any':
+            # any(|seen| !seen) is !all(|seen| seen)
+            return ('S:all-seen', not c['truth'])
         if c['kind'] == 'bool' and q.find_sub(a, lambda x: q.is_call(x, 'all')) is not None:
             return ('S:all-seen', c['truth'])
         return None
@@ -235,7 +255,7 @@ def run(ctx):
         lay = False
         for bi, t, e in sb:
             cf, _ = q.closure_of(lib, e[2][1])
-            lay = cf is not None and any(short(p) == 'num_actions' for _, _, p in cf.calls()) and q.find_sub(e[2][1], lambda x: x[0] == 'param' and x[1] == 2) is not None
+            lay = cf is not None and (short(cf.name) == 'num_actions' or any(short(p) == 'num_actions' for _, _, p in cf.calls())) and q.find_sub(e[2][1], lambda x: x[0] == 'param' and x[1] == 2) is not None
         ctx.verdict(lay, 'C14.layout', 'C14.layout:%s:partition' % nm, 'the dense vector is partitioned by num_actions of the same infoset table the indices were allocated from', f.where(sb[0][0]) if sb else f.where(0), 'found: %s' % lay)
     # index allocation walks infos in order with a running counter
     rule = 'C14.layout'
